@@ -182,4 +182,102 @@ Proof.
   pose proof (Permutation_length Hnodes) as L. rewrite map_length in L.
   destruct (gnodes g'), (gnodes g); cbn in L; try discriminate; exact I.
 Qed.
+
+(* ====================================================================== *)
+(* whole outputs, for EVERY solver: the wrappers whose solver arguments are  *)
+(* counts (Leibniz-equal rationals)                                        *)
+(* ====================================================================== *)
+Lemma isSome_map {A B} (f : A -> B) o : isSome (option_map f o) = isSome o.
+Proof. destruct o; reflexivity. Qed.
+Lemma len_map (l : list node) : len (map phi l) = len l.
+Proof. unfold len. rewrite map_length. reflexivity. Qed.
+Lemma sqmat_ext f f' : (forall s i, f' s i = f s i) -> sqmat g' f' = sqmat g f.
+Proof. intros H. unfold sqmat. rewrite iso_classes. apply map_ext. intros s. apply map_ext. intros i. apply H. Qed.
+
+Lemma nodes_match {A} (x y : A) :
+  match gnodes g' with [] => x | _ :: _ => y end = match gnodes g with [] => x | _ :: _ => y end.
+Proof. pose proof iso_nodes_nil as H. destruct (gnodes g'), (gnodes g); try contradiction; reflexivity. Qed.
+
+Lemma match_nil_cong {A B} (l : list A) (x y y' : B) :
+  y = y' -> match l with [] => x | _ :: _ => y end = match l with [] => x | _ :: _ => y' end.
+Proof. intros ->. reflexivity. Qed.
+
+Ltac init_cases I0 R0 st' st Hst :=
+  let HI := fresh "HI" in
+  pose proof (iso_initialize_node_status I0 R0) as HI; cbn [option_map] in HI |- *;
+  destruct (initialize_node_status g' (map phi I0) _) as [st'|?], (initialize_node_status g I0 _) as [st|?];
+  try contradiction; [rename HI into Hst|subst; reflexivity].
+
+Theorem iso_get_Nk_and_IC rq sir : get_Nk_and_IC g' (map_req phi rq) sir = get_Nk_and_IC g rq sir.
+Proof.
+  unfold get_Nk_and_IC, map_req. cbn [rq_I rq_R rq_rho]. rewrite !isSome_map.
+  destruct (isSome (rq_rho rq) && isSome (rq_I rq)); [reflexivity|].
+  destruct (isSome (rq_rho rq) && isSome (rq_R rq)); [reflexivity|].
+  destruct (negb sir && isSome (rq_R rq)); [reflexivity|].
+  rewrite nodes_match. apply match_nil_cong.
+  rewrite iso_Nk, iso_rho_or_default.
+  destruct (rq_I rq) as [I0|]; cbn [option_map]; [|reflexivity].
+  init_cases I0 (rq_R rq) st' st Hst. cbn [rbind].
+  assert (HS : forall u, isS st' (phi u) = isS st u) by (intros u; unfold isS; rewrite Hst; reflexivity).
+  assert (HI2 : forall u, isI st' (phi u) = isI st u) by (intros u; unfold isI; rewrite Hst; reflexivity).
+  rewrite (iso_byclass (isS st) (isS st') HS), (iso_byclass (isI st) (isI st') HI2).
+  rewrite (iso_byclass (fun u => negb (isS st u) && negb (isI st u)) (fun u => negb (isS st' u) && negb (isI st' u)))
+    by (intros u; rewrite HS, HI2; reflexivity).
+  reflexivity.
+Qed.
+
+Theorem iso_SIS_homogeneous_meanfield rq sv :
+  SIS_homogeneous_meanfield_from_graph g' (map_req phi rq) sv = SIS_homogeneous_meanfield_from_graph g rq sv.
+Proof.
+  unfold SIS_homogeneous_meanfield_from_graph, map_req. cbn [rq_I rq_R rq_rho]. rewrite !isSome_map, iso_gN.
+  destruct (rq_I rq); cbn [option_map]; rewrite ?len_map; reflexivity.
+Qed.
+Theorem iso_SIR_homogeneous_meanfield rq sv :
+  SIR_homogeneous_meanfield_from_graph g' (map_req phi rq) sv = SIR_homogeneous_meanfield_from_graph g rq sv.
+Proof.
+  unfold SIR_homogeneous_meanfield_from_graph, map_req. cbn [rq_I rq_R rq_rho]. rewrite !isSome_map, iso_gN.
+  destruct (rq_I rq), (rq_R rq); cbn [option_map]; rewrite ?len_map; reflexivity.
+Qed.
+Theorem iso_SIS_heterogeneous_meanfield rq full sv :
+  SIS_heterogeneous_meanfield_from_graph g' (map_req phi rq) full sv = SIS_heterogeneous_meanfield_from_graph g rq full sv.
+Proof.
+  unfold SIS_heterogeneous_meanfield_from_graph. cbn [map_req rq_I rq_R rq_rho]. rewrite !isSome_map.
+  change (mkReq (option_map (map phi) (rq_I rq)) None (rq_rho rq)) with (map_req phi (mkReq (rq_I rq) None (rq_rho rq))).
+  rewrite iso_get_Nk_and_IC. reflexivity.
+Qed.
+Theorem iso_SIR_heterogeneous_meanfield rq full sv :
+  SIR_heterogeneous_meanfield_from_graph g' (map_req phi rq) full sv = SIR_heterogeneous_meanfield_from_graph g rq full sv.
+Proof. unfold SIR_heterogeneous_meanfield_from_graph. rewrite iso_get_Nk_and_IC. reflexivity. Qed.
+
+Theorem iso_SIS_effective_degree rq full sv :
+  SIS_effective_degree_from_graph g' (map_req phi rq) full sv = SIS_effective_degree_from_graph g rq full sv.
+Proof.
+  unfold SIS_effective_degree_from_graph, map_req. cbn [rq_I rq_R rq_rho]. rewrite !isSome_map.
+  destruct (isSome (rq_rho rq) && isSome (rq_I rq)); [reflexivity|].
+  rewrite nodes_match. apply match_nil_cong.
+  destruct (rq_I rq) as [I0|]; cbn [option_map].
+  - init_cases I0 (@None (list node)) st' st Hst. cbn [rbind].
+    assert (HS : forall u, isS st' (phi u) = isS st u) by (intros u; unfold isS; rewrite Hst; reflexivity).
+    f_equal. f_equal; apply sqmat_ext; intros s i; apply iso_cnt; intros u Hu;
+      rewrite HS, (iso_nbr_count (isS st) (isS st') u HS Hu), (iso_deg u Hu); reflexivity.
+  - rewrite iso_rho_or_default. f_equal. f_equal; apply sqmat_ext; intros s i; apply iso_ed_rho_entry.
+Qed.
+Theorem iso_SIR_effective_degree rq full sv :
+  SIR_effective_degree_from_graph g' (map_req phi rq) full sv = SIR_effective_degree_from_graph g rq full sv.
+Proof.
+  unfold SIR_effective_degree_from_graph, map_req. cbn [rq_I rq_R rq_rho]. rewrite !isSome_map.
+  destruct (isSome (rq_rho rq) && isSome (rq_I rq)); [reflexivity|].
+  destruct (isSome (rq_rho rq) && isSome (rq_R rq)); [reflexivity|].
+  rewrite nodes_match. apply match_nil_cong.
+  destruct (rq_I rq) as [I0|]; cbn [option_map].
+  - init_cases I0 (rq_R rq) st' st Hst. cbn [rbind].
+    assert (HS : forall u, isS st' (phi u) = isS st u) by (intros u; unfold isS; rewrite Hst; reflexivity).
+    assert (HI2 : forall u, isI st' (phi u) = isI st u) by (intros u; unfold isI; rewrite Hst; reflexivity).
+    f_equal. f_equal.
+    + apply sqmat_ext; intros s i; apply iso_cnt; intros u Hu.
+      rewrite HS, (iso_nbr_count (isS st) (isS st') u HS Hu), (iso_nbr_count (isI st) (isI st') u HI2 Hu). reflexivity.
+    + apply iso_cnt. intros u _. apply HI2.
+    + apply iso_cnt. intros u _. rewrite HS, HI2. reflexivity.
+  - rewrite iso_rho_or_default, iso_Nk. f_equal. f_equal. apply sqmat_ext; intros s i; apply iso_ed_rho_entry.
+Qed.
 End Iso.
